@@ -88,6 +88,10 @@ def run(ctx):
     n = check_tailmove(ctx, prog)
     ctx.floor('R-TAILMOVE', n, 2)
 
+    # ---------------------------------------------------------------- dup() detaches whenever the storage is shared
+    n = check_dup(ctx, prog)
+    ctx.floor('R-DUP', n, 1)
+
     # ---------------------------------------------------------------- a (re)allocated block records its capacity
     n = check_capacity(ctx, prog)
     ctx.floor('R-CAP allocating members', n, 10)
@@ -188,15 +192,15 @@ def check_selfarg(ctx, prog, ac):
 
 # ------------------------------------------------------------------------------------------------ R-SHARE / R-TAILMOVE
 
-def check_fresh(ctx, prog):
+def check_fresh(ctx, prog, classes=('asl::Array',), rule_label='array'):
     """A const member that returns an Array *by value* promises a new array (concat, slice, reversed, map, clone ...). Returning
     `*this` or a by-reference parameter copy-constructs a handle, i.e. shares the storage: later changes through either show in both."""
     n = 0
     for f in prog.functions:
-        if f.get('clsp') != 'asl::Array' or not f.get('body') or f.get('implicit') or not f.get('const') or f.get('kind') != 'method':
+        if f.get('clsp') not in classes or not f.get('body') or f.get('implicit') or not f.get('const') or f.get('kind') != 'method':
             continue
         rt = T(f, f.get('ret'))
-        if rt.get('ref') or rt.get('recp') != 'asl::Array' or rt.get('rec') != f.get('cls'):
+        if rt.get('ref') or rt.get('recp') not in classes or rt.get('rec') != f.get('cls'):
             continue
         n += 1
         ctx.analysed(f)
@@ -276,6 +280,63 @@ def ptr_offset(f, e):
                 out[kk] = out.get(kk, 0) + vv
             return out, (to.get('sz') or 1)
     return None, None
+
+
+def check_dup(ctx, prog, cls='asl::Array'):
+    """R-DUP: dup() (the detach primitive behind clone(), concat, Map/Dic dup) may keep the current storage only when this
+    handle is its sole owner.  Every return that is reached before a new block was built is evaluated with the reference
+    count and the length bound to small values: it must not be admitted for a count above 1."""
+    import bounded
+    n = 0
+    for f in prog.functions:
+        if f.get('clsp') != cls or f.get('n') != 'dup' or not f.get('body') or f.get('implicit'):
+            continue
+        n += 1
+        ctx.analysed(f)
+        G = q.Guarded(f)
+        order = dict((id(x), i) for i, x in enumerate(G.order))
+        builds = [e for e in fn_exprs(f) if (e.get('k') == 'construct' and (e.get('cls') or '').startswith(cls.split('<')[0]) and not e.get('copy')) or
+                  (e.get('k') == 'call' and e.get('fn') in ('malloc', 'realloc'))]
+        first_build = min([order.get(id(e), 10 ** 9) for e in builds] or [10 ** 9])
+        role = 'dup:keeps the storage only for a sole owner'
+        bad = None
+        und = None
+        for s_ in ir.walk_stmts(f['body']):
+            if s_.get('k') != 'return':
+                continue
+            pos = max([order.get(id(x), -1) for x in G.order if x.get('l', 0) <= s_.get('l', 0)] or [-1]) if s_.get('e') is None else order.get(id(s_['e']), 10 ** 9)
+            if pos > first_build:
+                continue
+            for rc_ in (1, 2, 3):
+                for len_ in (0, 1, 5):
+                    def bind(e, rc_=rc_, len_=len_):
+                        if e.get('k') == 'call' and (e.get('clsp') or '').endswith('AtomicCount') and e.get('obj') is not None and strip_lv(e['obj']).get('f') == 'rc':
+                            op = e.get('op')
+                            if op in ('==', '!=', '<', '>', '<=', '>=') and e.get('a') and const_val(e['a'][0]) is not None:
+                                c_ = const_val(e['a'][0])
+                                return int({'==': rc_ == c_, '!=': rc_ != c_, '<': rc_ < c_, '>': rc_ > c_, '<=': rc_ <= c_, '>=': rc_ >= c_}[op])
+                            if not e.get('a'):
+                                return rc_
+                        if e.get('k') == 'mem' and e.get('f') == 'n' and 'Data' in (e.get('fq') or ''):
+                            return len_
+                        if e.get('k') == 'call' and (e.get('pq') or '').endswith('::length') and not e.get('a'):
+                            return len_
+                        return None
+                    ev = bounded.Bound(prog, f, {}, {}, bind=bind)
+                    r = bounded.admitted3(ev, G.stmt_guards.get(id(s_), ()), G)
+                    ctx.evaluations += 1
+                    if r is None:
+                        und = 'guards of the early return not evaluable'
+                    elif r and rc_ > 1 and bad is None:
+                        bad = (s_.get('l'), rc_, len_)
+        inst = f['q']
+        if bad:
+            ctx.violation('R-DUP', f['pq'], role, fwhere(f, bad[0]), 'dup() returns without detaching when %d handles share the storage (length %d): clone()/concat of such an array stay aliases of their source, appends through one show in the other and growth leaves it dangling (instantiation %s)' % (bad[1], bad[2], inst))
+        elif und:
+            ctx.undecided('R-DUP', f['pq'], role, fwhere(f), und)
+        else:
+            ctx.ok('R-DUP', f['pq'], role, fwhere(f), 'early returns are admitted only for a reference count of 1')
+    return n
 
 
 def check_capacity(ctx, prog):
